@@ -556,7 +556,7 @@ package cache
 // and backed by the labelled bounded stand-ins of C08 (every index
 // configuration against a reference scan).
 //@ ghost func matchesAll(*RowCache, []ovsdb.Condition, string) bool
-//@ func (*RowCache).RowsByCondition
+//@ func (*RowCache).RowsByCondition group c08
 //@ trusted "closures and reflection; covered by bounded stand-ins rows-by-condition and condition-rfc"
 //@ modifies nothing
 //@ ensures_ok result0 != nil && fresh(result0)
